@@ -81,6 +81,15 @@ impl Operator {
             };
             Some(Value::from(ordering.is_some_and(op)))
         }
+        if matches!(
+            self,
+            Self::Greater | Self::GreaterE | Self::Lesser | Self::LesserE
+        ) && let (Value::Numeric(a, _), Value::Numeric(b, _)) = (&a, &b)
+            && !a.unit.is_compatible(&b.unit)
+        {
+            // Numbers in incompatible units have no order.
+            return Err(BadOp::UndefinedOperation);
+        }
         Ok(match *self {
             Self::And => Some(if a.is_true() { b } else { a }),
             Self::Or => Some(if a.is_true() { a } else { b }),
